@@ -45,6 +45,8 @@ def scenarios():
                                      ckw=dict(ping_rate=0, poll=0.5))
     sc['close-timeout'] = dict(steps=[('raw', F(1, b't'))], horizon=9.0, policy={'text': [['close']]},
                                ckw=dict(ping_rate=0, poll=0.5, close_timeout=2.0))
+    sc['proxy-refuses-407'] = dict(steps=[], proxy=b'HTTP/1.1 407 Proxy Authentication Required\r\n\r\n')
+    sc['proxy-hangs-up'] = dict(steps=[], proxy=b'HTTP/1.1 200 Connection esta', url='wss://example.com/y')
     sc['via-proxy'] = dict(steps=[('raw', F(1, b't')), ('eof',)], proxy=True)
     sc['tls'] = dict(steps=[('raw', F(1, b't') + F(9, b'')), ('eof',)], url='wss://example.com/')
     sc['wss-via-proxy'] = dict(steps=[('raw', F(1, b't') + F(9, b'') + F(2, b'b')), ('eof',)], proxy=True, url='wss://example.com/x')
@@ -64,8 +66,11 @@ def make(name):
     steps = list(sc['steps'])
     hs = sc.get('hs') or {}
     full = [('hs', hs)] + steps
-    if sc.get('proxy'):
+    if sc.get('proxy') is True:
         full = [('proxy', b'HTTP/1.1 200 Connection established\r\n\r\n')] + full
+    elif sc.get('proxy'):
+        # the proxy refuses / hangs up: the attempt ends with ConnectFail, nothing is left open behind it
+        full = [('proxy', sc['proxy']), ('eof',)]
     cuts = None
     if sc.get('cuts') == 'steps':
         cuts, off = [129], 129
